@@ -116,6 +116,10 @@ class Exec:
                 return data
         return None
 
+    def decided(self, w):
+        """the NextLayer addon has chosen TCPLayer / UDPLayer (also true for the ignore variant, which has no flow)"""
+        return any(name == "next_layer" and data.layer is not None for name, data in w.hook_objs)
+
     def enabled(self, w, st):
         acts = []
         if w.done:
@@ -138,9 +142,11 @@ class Exec:
             acts.append("s_eof")
         fl = self.flow(w)
         if fl is not None:
-            if st["inj_c"] < MAX_INJECT:
+            # an injection is only generated into a direction that is still open: its (spoofed) sender has not
+            # closed, and for an injection "from the server" the upstream connection exists
+            if st["inj_c"] < MAX_INJECT and not st["c_eof"]:
                 acts.append("inject_c")
-            if st["inj_s"] < MAX_INJECT:
+            if st["inj_s"] < MAX_INJECT and not st["s_eof"] and srv is not None:
                 acts.append("inject_s")
         return acts
 
@@ -195,7 +201,7 @@ class Exec:
         w = W29(mode=mode, opts=opts, transport=self.proto, policy=make_policy(self.pol), suspend=make_suspend(self.hold))
         ps = w.master.addons.get("proxyserver")
         st = {"c_data": 0, "s_data": 0, "c_eof": False, "s_eof": False, "inj_c": 0, "inj_s": 0, "sent_c": [], "sent_s": [],
-              "connect_failed": False, "half": None}
+              "connect_failed": False, "half": None, "gone_at": None, "gone_pending": False}
         choices, widths, costs, trace = [], [], [], []
         case = {"spec": self.spec(), "choices": None}
         reg = None
@@ -217,7 +223,11 @@ class Exec:
                 a = acts[k]
                 trace.append(a)
                 pre_io = len(w.io)
+                connect_pending = bool(w.pending_connects()) and a not in ("connect_ok", "connect_fail")
                 self.apply(w, st, a)
+                if w.done and st["gone_at"] is None:
+                    st["gone_at"] = len(trace)
+                    st["gone_pending"] = bool(w.suspended) or connect_pending
                 t.transitions += 1
                 self.step_clauses(w, st, a, trace, choices, pre_io, t)
                 t.state([self.spec(), trace, [x[:2] for x in w.io]])
@@ -252,10 +262,11 @@ class Exec:
             return
         if w.suspended or w.pending_connects():
             return  # the layer has not processed the close yet
+        if not w.done and not self.decided(w) and not st["connect_failed"]:
+            return  # NextLayer still buffers the close: judged once the protocol is chosen
         h["judged"] = True
-        started = self.ignore or self.flow(w) is not None
         srv = self.server(w)
-        if not started or srv is None or w.done:
+        if not self.decided(w) or srv is None or w.done:
             return  # no relay was established (protocol undecided / connect failed): nothing to propagate
         ev = [x for x in w.io if x[0] in ("eof", "close") and x[1] == other]
         ok = bool(ev) and ev[0][0] == "eof" and not any(x[0] == "close" and x[1] == other for x in w.io)
@@ -277,7 +288,9 @@ class Exec:
             if a in ("c_eof", "s_eof"):
                 first_close = a[0]
                 break
-        feats = self.feats(trace, first_close=first_close, connect_failed=st["connect_failed"])
+        feats = self.feats(trace, first_close=first_close, connect_failed=st["connect_failed"],
+                           # the client's connection ended while a message hook (or the connect) was still pending
+                           client_gone_with_pending=st["gone_pending"])
         got_s = [x[2] for x in w.io if x[0] == "write" and x[1] == "s"]
         got_c = [x[2] for x in w.io if x[0] == "write" and x[1] == "c"]
         t.outcome([self.spec(), names, got_s, got_c, [x[:2] for x in w.io if x[0] != "write"]])
@@ -294,20 +307,27 @@ class Exec:
         if fl is not None:
             want_s = [m.content for m in fl.messages if m.from_client]
             want_c = [m.content for m in fl.messages if not m.from_client]
-            # every byte the peers sent (and every injection) must have been recorded at all
-            rec_ok = True
-            if self.pol == "pass":
-                rec_ok = sorted(want_s) == sorted(st["sent_c"][: len([1 for m in fl.messages if m.from_client and not m.content.startswith(b"<i")])] + [m.content for m in fl.messages if m.from_client and m.content.startswith(b"<i")])
-            del rec_ok
         elif self.ignore:
             want_s, want_c = list(st["sent_c"]), list(st["sent_s"])
         else:
             want_s, want_c = [], []
         if fl is not None or self.ignore:
-            if self.proto == "tcp":
-                ok = b"".join(got_s) == b"".join(want_s) and b"".join(got_c) == b"".join(want_c)
-            else:
-                ok = got_s == want_s and got_c == want_c
+            # a peer that has gone away by its own action cannot receive any more: the tail may be missing.
+            # client gone = its connection handler finished during the sequence (UDP: socket closed; TCP: it closed
+            # after mitmproxy had already closed the other direction); server gone = UDP socket closed.
+            client_gone = st["gone_at"] is not None
+            server_gone = self.proto == "udp" and "s_eof" in trace
+            # without a flow nothing is "recorded": what the client sent before it vanished while the upstream
+            # connect / a hook was pending may be dropped
+            s_prefix_ok = server_gone or (self.ignore and (st["gone_pending"] or st["connect_failed"]))
+
+            def same(got, want, prefix_ok):
+                if self.proto == "tcp":
+                    g, wn = b"".join(got), b"".join(want)
+                    return g == wn or (prefix_ok and wn.startswith(g))
+                return got == want or (prefix_ok and want[: len(got)] == got)
+
+            ok = same(got_s, want_s, s_prefix_ok) and same(got_c, want_c, client_gone)
             t.judge("peer_gets_recorded_contents_in_order", ok, feats, case, {"to_server": want_s, "to_client": want_c},
                     {"to_server": got_s, "to_client": got_c, "trace": trace})
         else:
@@ -352,7 +372,7 @@ def chunk_fn(items):
 
 def run(ctx):
     global _DEPTH
-    _DEPTH = depth = ctx.pick(5, 7)
+    _DEPTH = depth = ctx.pick(6, 7)
     sp = specs(ctx.tier)
     ctx.bounds = {"depth": depth, "configurations": len(sp), "protocols": ["tcp", "udp"], "connection_strategy": ["eager", "lazy"],
                   "policy": ["pass", "edit every message"], "held_hooks": ["none", "tcp_message/udp_message"], "ignore_hosts_variant": True,
